@@ -622,8 +622,8 @@ where
         // In this case, we need to return the state to what it was previously, before the runge-kutta steps,
         // and reset the time to what it was previously.
         if self.yield_memory == O + 1 {
-            // We took Order - 1 runge kutta steps at this dt
-            self.time -= self.dt - self.order;
+            // We took Order runge kutta steps at this dt
+            self.time -= self.dt * self.order;
             self.state = self.save_state.clone();
         }
 
